@@ -27,5 +27,8 @@ def run(ctx, rep):
     TR.check_format_helpers(fx, rep, "C07.2")
     TR.check_display_templates(fx, rep, "C07.4")
     TR.check_classifiers(fx, rep, "C07.6")
+    TR.check_element_display(fx, rep, "C07.4")
+    import api_rules as AR
+    AR.check_throwable_trace_api(fx, rep, "C07.api")
     n = R2.check_twins(fx, rep, "C07.5")
     rep.floor("C07.5", n, 6, "twin pairs")
